@@ -45,9 +45,9 @@ enum Op {
     Open { slot: usize, name: usize, read: bool, write: bool, truncate: bool, create: bool, create_new: bool, append: bool },
     Close { slot: usize },
     WriteAt { slot: usize, pos: u64, len: usize, shape: u8 },
-    WriteVectoredAt { slot: usize, pos: u64, lens: [usize; 3] },
+    WriteVectoredAt { slot: usize, pos: u64, lens: Vec<usize> },
     ReadAt { slot: usize, pos: u64, cap: usize, init: usize },
-    ReadVectoredAt { slot: usize, pos: u64, caps: [usize; 3], inits: [usize; 3] },
+    ReadVectoredAt { slot: usize, pos: u64, caps: Vec<usize>, inits: Vec<usize> },
     ReadManagedAt { slot: usize, pos: u64, len: usize },
     SetLen { slot: usize, size: u64 },
     Sync { slot: usize, data: bool },
@@ -103,16 +103,20 @@ fn gen_op() -> Op {
         }
         1 => Op::Close { slot },
         2 => Op::WriteAt { slot, pos: pos(), len: len(), shape: sim::choose("w.shape", 4) as u8 },
-        3 => Op::WriteVectoredAt { slot, pos: pos(), lens: [len().min(700), if sim::flip("wv.empty", 1, 2) { 0 } else { len().min(700) }, len().min(700)] },
+        3 => {
+            let n = 1 + sim::range("wv.segments", 0, 2) as usize;
+            Op::WriteVectoredAt { slot, pos: pos(), lens: (0..n).map(|i| if i == 1 && sim::flip("wv.empty", 1, 2) { 0 } else { len().min(700) }).collect() }
+        }
         4 => {
             let cap = len();
             Op::ReadAt { slot, pos: pos(), cap, init: if sim::flip("r.init", 1, 2) { sim::range("r.init.len", 0, cap as u64) as usize } else { 0 } }
         }
         5 => {
-            let caps = [len().min(700), if sim::flip("rv.empty", 1, 2) { 0 } else { len().min(700) }, len().min(700)];
+            let n = 1 + sim::range("rv.segments", 0, 2) as usize;
+            let caps: Vec<usize> = (0..n).map(|i| if i == 1 && sim::flip("rv.empty", 1, 2) { 0 } else { len().min(700) }).collect();
             let preinit = sim::flip("rv.preinit", 1, 4);
-            let init = |c: usize| if preinit && sim::flip("rv.init", 1, 2) { sim::range("rv.init.len", 0, c as u64) as usize } else { 0 };
-            Op::ReadVectoredAt { slot, pos: pos(), caps, inits: [init(caps[0]), init(caps[1]), init(caps[2])] }
+            let inits = caps.iter().map(|c| if preinit && sim::flip("rv.init", 1, 2) { sim::range("rv.init.len", 0, *c as u64) as usize } else { 0 }).collect();
+            Op::ReadVectoredAt { slot, pos: pos(), caps, inits }
         }
         6 => Op::ReadManagedAt { slot, pos: pos(), len: len().min(300) },
         7 => Op::SetLen { slot, size: pos().min(100_000) },
@@ -310,10 +314,9 @@ async fn step(errs: &Errs, da: &Path, db: &Path, slots: &mut [Option<Handle>], o
             let h = slots[slot].as_mut().unwrap();
             let bufs: Vec<Vec<u8>> = lens.iter().enumerate().map(|(i, l)| sim::payload(seed ^ (i as u64 + 1) << 20, *l)).collect();
             let iov: Vec<libc::iovec> = bufs.iter().map(|b| libc::iovec { iov_base: b.as_ptr() as *mut _, iov_len: b.len() }).collect();
-            let n = unsafe { libc::pwritev(h.os.as_raw_fd(), iov.as_ptr(), 3, pos as i64) };
+            let n = unsafe { libc::pwritev(h.os.as_raw_fd(), iov.as_ptr(), iov.len() as i32, pos as i64) };
             let os = if n < 0 { Err(std::io::Error::last_os_error()) } else { Ok(n as usize) };
-            let arr: [Vec<u8>; 3] = [bufs[0].clone(), bufs[1].clone(), bufs[2].clone()];
-            let ours = h.ours.write_vectored_at(arr, pos).await.0;
+            let ours = h.ours.write_vectored_at(bufs.clone(), pos).await.0;
             if same_outcome(errs, &tag, &ours, &os) && ours.as_ref().unwrap() != os.as_ref().unwrap() {
                 errs.push("count", format!("{tag}: compio wrote {} bytes, the OS call {}", ours.unwrap(), os.unwrap()));
             }
@@ -350,15 +353,17 @@ async fn step(errs: &Errs, da: &Path, db: &Path, slots: &mut [Option<Handle>], o
         }
         Op::ReadVectoredAt { slot, pos, caps, inits } if need(slots, slot) => {
             let h = slots[slot].as_mut().unwrap();
-            let bufs: [Vec<u8>; 3] = std::array::from_fn(|i| {
-                let mut b = Vec::with_capacity(caps[i]);
-                b.resize(inits[i], 0xEE);
-                b
-            });
+            let bufs: Vec<Vec<u8>> = (0..caps.len())
+                .map(|i| {
+                    let mut b = Vec::with_capacity(caps[i]);
+                    b.resize(inits[i], 0xEE);
+                    b
+                })
+                .collect();
             let real_caps: Vec<usize> = bufs.iter().map(|b| b.capacity()).collect();
             let mut tmps: Vec<Vec<u8>> = real_caps.iter().map(|c| vec![0u8; *c]).collect();
             let iov: Vec<libc::iovec> = tmps.iter_mut().map(|b| libc::iovec { iov_base: b.as_mut_ptr() as *mut _, iov_len: b.len() }).collect();
-            let n = unsafe { libc::preadv(h.os.as_raw_fd(), iov.as_ptr(), 3, pos as i64) };
+            let n = unsafe { libc::preadv(h.os.as_raw_fd(), iov.as_ptr(), iov.len() as i32, pos as i64) };
             let os = if n < 0 { Err(std::io::Error::last_os_error()) } else { Ok(n as usize) };
             let BufResult(ours, bufs) = h.ours.read_vectored_at(bufs, pos).await;
             if same_outcome(errs, &tag, &ours, &os) {
@@ -367,7 +372,7 @@ async fn step(errs: &Errs, da: &Path, db: &Path, slots: &mut [Option<Handle>], o
                     errs.push("count", format!("{tag}: compio read {n} bytes, the OS call {m}"));
                 } else {
                     let mut left = n;
-                    for i in 0..3 {
+                    for i in 0..real_caps.len() {
                         let fill = left.min(real_caps[i]);
                         left -= fill;
                         if bufs[i].len() != inits[i].max(fill) {
